@@ -1,7 +1,10 @@
 """Per-property claim texts for MANIFEST.json (see tools/gen_manifest.py)."""
 
 _GEN = ("Decides the structural clauses listed in DESIGN.md section 5 for this property on every site and path of the "
-        "current source; it does not decide numerical behaviour. ")
+        "current source; it does not decide numerical behaviour. Branch-selection, default and refusal conditions named in "
+        "DESIGN.md 11.7 are decided as predicates (finite truth table over type/None tests and the order types of the counts "
+        "compared); the thorough tier adds the mutant/equivalent corpora and a single-edit mutation analysis of the anchored "
+        "functions (DESIGN.md 11.6). ")
 
 CLAIMS = {
     "C08": {
